@@ -6,10 +6,6 @@
 
 use serde_json::{json, Value};
 
-#[allow(dead_code)]
-#[path = "/repo/crates/char_range_gen/src/main.rs"]
-mod crg;
-
 pub fn runs_of(accepted: &[bool]) -> Vec<(u32, u32)> {
     let mut out: Vec<(u32, u32)> = vec![];
     for (c, ok) in accepted.iter().enumerate() {
